@@ -364,18 +364,37 @@ bool vfps::ProgramOptions::parse(int ac, char** av)
                 Display::printText(message);
                 store(parse_config_file(ifs, _cfgfileopts), _vm);
                 notify(_vm);
+                /* A compatibility name stands for its current name.
+                 * When the current name was given explicitly
+                 * (e.g. on the command line), it keeps its value.
+                 */
                 if(_vm.count("SyncFreq")) {
-                    _vm.at("SynchrotronFrequency").value()
-                            = _vm["SyncFreq"].value();
+                    if (_vm["SynchrotronFrequency"].defaulted()) {
+                        _vm.at("SynchrotronFrequency").value()
+                                = _vm["SyncFreq"].value();
+                    } else {
+                        _vm.at("SyncFreq").value()
+                                = _vm["SynchrotronFrequency"].value();
+                    }
                 }
                 // same for the other compatibility names
                 if(_vm.count("RFVoltage")) {
-                    _vm.at("AcceleratingVoltage").value()
-                            = _vm["RFVoltage"].value();
+                    if (_vm["AcceleratingVoltage"].defaulted()) {
+                        _vm.at("AcceleratingVoltage").value()
+                                = _vm["RFVoltage"].value();
+                    } else {
+                        _vm.at("RFVoltage").value()
+                                = _vm["AcceleratingVoltage"].value();
+                    }
                 }
                 if(_vm.count("steps")) {
-                    _vm.at("StepsPerTs").value()
-                            = _vm["steps"].value();
+                    if (_vm["StepsPerTs"].defaulted()) {
+                        _vm.at("StepsPerTs").value()
+                                = _vm["steps"].value();
+                    } else {
+                        _vm.at("steps").value()
+                                = _vm["StepsPerTs"].value();
+                    }
                 }
                 notify(_vm);
             }
